@@ -432,17 +432,26 @@ func voChoose() *voReq {
 		maxN = 3
 	}
 	q.n = 1 + verifChoice("statements", maxN)
+	thorough := verifTier() == 1
 	switch q.ep {
 	case voEpExecute:
 		q.text = verifChoice("textPlain", 2) == 1
-		q.tx = verifChoice("transaction", 2) == 1
+		if thorough {
+			q.tx = verifChoice("transaction", 2) == 1
+		}
 	case voEpQueued:
 		q.wait = verifChoice("wait", 2) == 1
 	case voEpRequest:
 		q.level = []string{"", "strong", "none"}[verifChoice("level", 3)]
-		q.tx = verifChoice("transaction", 2) == 1
+		if thorough {
+			q.tx = verifChoice("transaction", 2) == 1
+		}
 	case voEpQueryPost:
-		q.level = []string{"", "strong", "none", "weak", "linearizable", "auto", "STRONG"}[verifChoice("level", 7)]
+		levels := []string{"", "strong", "none", "STRONG"}
+		if thorough {
+			levels = []string{"", "strong", "none", "STRONG", "weak", "linearizable", "auto"}
+		}
+		q.level = levels[verifChoice("level", len(levels))]
 		q.text = verifChoice("textPlain", 2) == 1
 	case voEpQueryGet:
 		q.level = []string{"", "strong", "none", "linearizable"}[verifChoice("level", 4)]
